@@ -263,9 +263,9 @@ func bigStr(x *big.Int) []byte {
 
 func structuredFamilies(r *mon.Run) []family {
 	K := r.N(400_000, 20_000_000)   // MaxInt64 ± k
-	J := r.N(2_000, 200_000)           // 10^e ± j, 2^e ± j
-	G := r.N(50_000, 5_000_000)      // accumulator neighbourhood of MaxInt/10
-	W := r.N(2_000, 200_000)           // wrap landing points
+	J := r.N(500, 200_000)          // 10^e ± j, 2^e ± j
+	G := r.N(20_000, 5_000_000)      // accumulator neighbourhood of MaxInt/10
+	W := r.N(500, 200_000)          // wrap landing points
 	div10 := new(big.Int).SetUint64(math.MaxInt64 / 10)
 	two64 := new(big.Int).Lsh(big.NewInt(1), 64)
 	var fams []family
@@ -523,7 +523,7 @@ func TestC30(t *testing.T) {
 	lap("structured")
 
 	// --- B: random decimal strings
-	nRand := r.N(4_000_000, 600_000_000)
+	nRand := r.N(4_000_000, 300_000_000)
 	blocks(r, secRandom, nRand, 8192, func(a *agg, bi, lo, hi int) {
 		rnd := r.Rand("dec", bi)
 		for i := lo; i < hi; i++ {
@@ -632,7 +632,7 @@ func intClass(sec string, n uint64) (classKey, bool) {
 
 func roundTripInts(r *mon.Run) {
 	st := structuredInts(r)
-	nRand := r.N(1_000_000, 200_000_000)
+	nRand := r.N(1_000_000, 100_000_000)
 	total := len(st) + nRand
 	prefixes := []string{"", "Content-Length: ", "x"}
 	blocks(r, secRT, total, 8192, func(a *agg, bi, lo, hi int) {
@@ -681,7 +681,7 @@ func roundTripInts(r *mon.Run) {
 
 func hexWriter(r *mon.Run) {
 	st := structuredInts(r)
-	nRand := r.N(1_000_000, 200_000_000)
+	nRand := r.N(1_000_000, 100_000_000)
 	total := len(st) + nRand
 	limit := fasthttp.VerifMaxHexIntChars()
 	blocks(r, secHexW, total, 8192, func(a *agg, bi, lo, hi int) {
@@ -746,7 +746,9 @@ func hexWriter(r *mon.Run) {
 	})
 	r.Require("hex_writes", total)
 	r.Require("hex_round_trips", total/2)
-	r.Require("hex_above_limit_written", 1)
+	if limit < strconv.IntSize/4 {
+		r.Require("hex_above_limit_written", 1)
+	}
 }
 
 const hexDigits = "0123456789abcdefABCDEF"
@@ -778,7 +780,7 @@ func hexReader(r *mon.Run) {
 	for c := 0; c < 256; c++ {
 		st = append(st, sc{"", string([]byte{byte(c)})}, sc{"1", string([]byte{byte(c)})})
 	}
-	nRand := r.N(1_000_000, 200_000_000)
+	nRand := r.N(1_000_000, 100_000_000)
 	total := len(st) + nRand
 	isHex := func(c byte) bool { return c >= '0' && c <= '9' || c >= 'a' && c <= 'f' || c >= 'A' && c <= 'F' }
 	blocks(r, secHexR, total, 8192, func(a *agg, bi, lo, hi int) {
@@ -814,8 +816,11 @@ func hexReader(r *mon.Run) {
 			}
 			var want uint64
 			wantOK := nd > 0 && nd <= limit
+			fits := true
 			if wantOK {
-				want, _ = strconv.ParseUint(string(in[:nd]), 16, 64)
+				var perr error
+				want, perr = strconv.ParseUint(string(in[:nd]), 16, strconv.IntSize-1)
+				fits = perr == nil // within the digit limit every value fits; if it does not, accepting it is a wrapped result
 			}
 			src.Reset(in)
 			br.Reset(&src)
@@ -859,6 +864,10 @@ func hexReader(r *mon.Run) {
 				a.event("hex_empty_inputs", 1)
 				if err == nil {
 					r.Violation(idx, "hex-empty-accepted", fmt.Sprintf("readHexInt(%q) = %d, nil without any hex digit", in, got), payload)
+				}
+			case !fits:
+				if err == nil {
+					r.Violation(idx, "hex-wrapped-value", fmt.Sprintf("readHexInt(%q) = %d, nil: %d hex digits are within the limit %d but the value does not fit in an int", in, got, nd, limit), payload)
 				}
 			case err != nil:
 				r.Violation(idx, "hex-valid-rejected", fmt.Sprintf("readHexInt(%q) = error %v; strconv %d", in, err, want), payload)
@@ -936,7 +945,7 @@ func deframe(wire []byte) (body []byte, sizes []int, err error) {
 }
 
 func chunkEndToEnd(r *mon.Run) {
-	n := r.N(3_000, 300_000)
+	n := r.N(3_000, 150_000)
 	limit := fasthttp.VerifMaxHexIntChars()
 	blocks(r, secChunk, n, 64, func(a *agg, bi, lo, hi int) {
 		for i := lo; i < hi; i++ {
